@@ -499,16 +499,16 @@ LIGHT_VARIANTS = dict((c, [v for v in l if not is_heavy(v)]) for c, l in VARIANT
 # the counts of one compression equal up to +-2, so one floor per compression (about 50% of the measured minimum over
 # its variants; quick: min over seeds 0-3, thorough: seed 0).
 VAR_FLOOR = {'quick': {'': 20, 'gz': 4, 'bz2': 12, 'xz': 4, 'lzma': 5},
-             'thorough': {'': 1400, 'gz': 250, 'bz2': 780, 'xz': 270, 'lzma': 310}}
+             'thorough': {'': 1400, 'gz': 250, 'bz2': 800, 'xz': 280, 'lzma': 330}}
 VAR_FLOOR_OTHER = {
     'quick': {'monitors': {'M.var.pkg': 930, 'M.var.query': 66000, 'M.var.accepted-served': 140},
               'counters': {'var:control:any': 750, 'var:data:any': 750, 'var:control:encoder-defaults': 240,
                            'var:data:encoder-defaults': 240, 'set:with-encoder-variants': 3300,
                            'set:with-encoder-variants:acceptable': 140, 'set:with-encoder-variants:defective': 3200}},
-    'thorough': {'monitors': {'M.var.pkg': 56000, 'M.var.query': 3900000, 'M.var.accepted-served': 11000},
-                 'counters': {'var:control:any': 45000, 'var:data:any': 45000, 'var:control:encoder-defaults': 14500,
-                              'var:data:encoder-defaults': 14500, 'set:with-encoder-variants': 36000,
-                              'set:with-encoder-variants:acceptable': 11000, 'set:with-encoder-variants:defective': 23000}},
+    'thorough': {'monitors': {'M.var.pkg': 56000, 'M.var.query': 3990000, 'M.var.accepted-served': 12000},
+                 'counters': {'var:control:any': 45000, 'var:data:any': 45000, 'var:control:encoder-defaults': 14900,
+                              'var:data:encoder-defaults': 14900, 'set:with-encoder-variants': 36000,
+                              'set:with-encoder-variants:acceptable': 12000, 'set:with-encoder-variants:defective': 24000}},
 }
 for _tier in ('quick', 'thorough'):
     for _comp, _lst in VARIANTS.items():
